@@ -78,7 +78,26 @@ pub fn gen_entries(rng: &Rng, max_files: usize) -> Entries {
 
 /// findings for one category: subset given by bitmask over the category's patterns
 pub fn gen_map(rng: &Rng, category: &str, mask: u64, max_files: usize) -> Vec<(&'static str, Entries)> {
-    patterns_of(category).iter().enumerate().filter(|(i, _)| mask & (1 << i) != 0).map(|(_, p)| (*p, gen_entries(rng, max_files))).collect()
+    let mut v: Vec<(&'static str, Entries)> = vec![];
+    for (i, p) in patterns_of(category).iter().enumerate() {
+        if mask & (1 << i) != 0 {
+            let mut es = gen_entries(rng, max_files);
+            if rng.chance(1, 25) {
+                // a file with an empty line set next to real ones: contributes no finding
+                es.insert(rng.below(es.len() + 1), (hostile_name(rng), BTreeSet::new()));
+            }
+            v.push((*p, es));
+        } else if rng.chance(1, 8) {
+            // "any number of files per pattern" includes none: the pattern is a key of the map but has no finding
+            v.push((*p, vec![]));
+        }
+    }
+    v
+}
+
+/// does the pattern have at least one finding in the map?
+pub fn has_findings(es: &Entries) -> bool {
+    es.iter().any(|(_, ls)| !ls.is_empty())
 }
 
 pub fn map_json(m: &[(&'static str, Entries)]) -> Value {
@@ -195,7 +214,10 @@ pub fn check_roundtrip(category: &str, m: &[(&'static str, Entries)], text: &str
     for s in &part.sections {
         *count.entry(s.pattern).or_insert(0) += 1;
     }
-    for (p, _) in m {
+    for (p, es0) in m {
+        if !has_findings(es0) {
+            continue;
+        }
         match count.get(p).copied().unwrap_or(0) {
             1 => {}
             0 => {
@@ -216,7 +238,7 @@ pub fn check_roundtrip(category: &str, m: &[(&'static str, Entries)], text: &str
         }
     }
     for (p, n) in &count {
-        if !m.iter().any(|(q, _)| q == p) {
+        if !m.iter().any(|(q, es0)| q == p && has_findings(es0)) {
             acc.violation(format!("section-without-findings:{}", p), json!({"category": category, "pattern": p, "times": n, "findings": map_json(m), "report": trunc(text, 3000)}));
             return Some(part);
         }
@@ -288,6 +310,9 @@ pub fn run(ctx: &Ctx) -> i32 {
         check_roundtrip(category, &m, &text, &table, acc);
         acc.cov(&format!("maps:{}", category));
         let hostile = m.iter().any(|(_, es)| es.iter().any(|(f, _)| f.contains(':') || f.contains("- ") || f.contains('#')));
+        if m.iter().any(|(_, e)| e.is_empty()) {
+            acc.cov("maps:with-a-pattern-that-has-no-files");
+        }
         if m.len() >= 2 || hostile {
             acc.nontrivial_h(hash_str(&map_json(&m).to_string()));
         }
